@@ -75,3 +75,48 @@ Print Assumptions C16_read_path_only_ranges.
 Print Assumptions C16_read_path_never_sees_an_empty_operation.
 Print Assumptions C16_read_path_creates_nothing.
 Print Assumptions C16_write_path_for_everything_else.
+
+(* ---- API layer end to end (Model/Api.v: KVServer -> Engine -> ActiveTable -> state machine) ---- *)
+From Verif Require Model.Api Proofs.ApiFacts.
+
+(* a refused request has no effect: whatever non-OK status a request to the key-value API is answered with, the database -
+   every table, including its applied index - is the same value afterwards.  [impl_step]: the API over the state machines
+   on the encoded Pebble key space *)
+Theorem C16_refused_request_has_no_effect : forall (d : SMap.smap Fsm.store) (idx : N) (q : Api.api_req) (st : status),
+  snd (Api.impl_step d idx q) = Api.PErr st -> fst (Api.impl_step d idx q) = d.
+Proof. exact (ApiFacts.refused_no_effect _ _ _ _ _ ApiFacts.f_put_shape ApiFacts.f_del_shape). Qed.
+Print Assumptions C16_refused_request_has_no_effect.
+
+(* reads change nothing, whatever they answer *)
+Theorem C16_reads_have_no_effect : forall (d : SMap.smap Fsm.store) (idx : N) (q : Api.api_req),
+  match q with Api.QRange _ _ _ _ | Api.QIterate _ _ _ _ => True | _ => False end -> fst (Api.impl_step d idx q) = d.
+Proof. exact (ApiFacts.reads_no_effect _ _ _ _ _). Qed.
+Print Assumptions C16_reads_have_no_effect.
+
+(* the same limits hold on every path that can create a record: over EVERY request sequence (puts, range deletes,
+   transactions with arbitrarily nested operations, reads, refused requests, any tables) every record of every table has
+   a non-empty key of at most key_limit bytes and a value of at most val_limit bytes, if that was so at the start *)
+Theorem C16_limits_are_an_invariant : forall (qs : list (N * Api.api_req)) (sd : SMap.smap Spec.spec_state),
+  ApiFacts.db_within sd -> ApiFacts.db_within (fst (Api.spec_run sd qs)).
+Proof. exact ApiFacts.limits_invariant_run. Qed.
+Print Assumptions C16_limits_are_an_invariant.
+
+(* ... and the API over the encoded state machines is the API over plain maps (C01 at the API) *)
+Theorem C16_api_refines : forall (names : list bytes) (qs : list (N * Api.api_req)),
+  Forall (fun iq => FsmRefine.u64 (fst iq)) qs ->
+  snd (Api.impl_run (Api.fresh_impl names) qs) = snd (Api.spec_run (Api.fresh_spec names) qs).
+Proof. exact ApiFacts.api_refines_from_fresh. Qed.
+Print Assumptions C16_api_refines.
+
+Example C16_api_example :
+  let t := [116] in
+  snd (Api.impl_run (Api.fresh_impl [t])
+        [(5, Api.QPut t [97] [1] false);
+         (6, Api.QPut t [] [1] false);                                        (* no key *)
+         (6, Api.QTxn t [] [Cmd.OPut {| Cmd.pt_key := []; Cmd.pt_val := [2]; Cmd.pt_prev := false |}] []);   (* nested: no key *)
+         (6, Api.QPut [120] [97] [1] false);                                  (* unknown table *)
+         (6, Api.QRange t {| Cmd.rq_key := [0]; Cmd.rq_end := Some [0]; Cmd.rq_limit := 0; Cmd.rq_keys_only := false; Cmd.rq_count_only := false |}
+                        true {| Api.fl_min_mod := 0; Api.fl_max_mod := 0; Api.fl_min_create := 0; Api.fl_max_create := 0 |})])
+  = [Api.PPut None 5; Api.PErr SInvalidArgument; Api.PErr SFailedPrecondition; Api.PErr SNotFound;
+     Api.PRange {| Cmd.rr_kvs := [([97], [1])]; Cmd.rr_more := false; Cmd.rr_count := 1 |}].
+Proof. vm_compute. reflexivity. Qed.
